@@ -43,7 +43,7 @@ RULE = ("util level (autoarray.util.transformer / inversion_interferometer_util 
         "RARE STATES are a regular part of every stream (all value vectors come from one generator): images / matrix columns / "
         "real and imaginary parts of visibilities, data and reconstructions that cancel exactly (sum == 0.0 with non-zero l1 norm: "
         "+a/-a dipoles and generic signed vectors closed by minus their sum), constant vectors, vectors without a positive entry, "
-        "all-zero, single non-zero entry; purely real / purely imaginary / im = -re / im = re visibilities; matrices with an all-zero "
+        "all-zero, single non-zero entry, integers with 30-50 significant bits (exact as int64 / float64, not as float32); purely real / purely imaginary / im = -re / im = re visibilities; matrices with an all-zero "
         "row, a column equal to or minus another, every row cancelling, one-hot 0/1 matrices; noise maps all ones / constant / "
         "constant with real != imaginary; baseline sets all zero / u = 0 / v = 0 / u = v / +- pairs; util grids on one axis / one point "
         "repeated / point-symmetric; tables with a zero baseline column or imaginary = -real. INPUT KINDS: the same values as int64 / "
@@ -126,7 +126,7 @@ def rval(rng, sparse=False):
 # point although the l1 norm is not: a +a/-a dipole, or a generic signed vector whose last entry is minus the sum of
 # the others), constant vectors, vectors without a positive entry, all-zero vectors, a single non-zero entry.  A shortcut
 # that tests sum / mean / max / any(> 0) / "all entries equal" instead of "all entries are zero" shows on them.
-SPECIALS = ["cancel", "cancel", "cancel", "dipole", "dipole", "const", "nonpos", "zero", "single"]
+SPECIALS = ["cancel", "cancel", "cancel", "dipole", "dipole", "const", "nonpos", "zero", "single", "wide"]
 class Quota:
     """no stream is left to chance: per stream key, at least one linear argument in five cancels exactly (where the size allows)"""
     def __init__(self): self.n = {}; self.c = {}
@@ -161,16 +161,18 @@ def rvals(rng, n, sparse=False, e=0, special=None, spread=True, p_special=0.45, 
         out = [-abs(one(sparse)) for _ in range(n)]
         if all(v == 0 for v in out): out[rng.randrange(n)] = -abs(nz())
         return out
+    if special == "wide":             # integers with 30-50 significant bits: exact as int64 / float64, NOT as float32
+        return [Fraction(rng.choice([-1, 1]) * (rng.getrandbits(rng.randint(30, 50)) | 1)) if rng.random() < 0.8 else Fraction(0) for _ in range(n)]
     if special == "zero": return [Fraction(0)] * n
     if special == "single":
         out = [Fraction(0)] * n; out[rng.randrange(n)] = nz(); return out
     return [one(sparse) for _ in range(n)]
-def rmat(rng, n, P, mag=True, q=None):
+def rmat(rng, n, P, mag=True, q=None, mode=None):
     """n x P signed matrix with zeros; every COLUMN has its own magnitude and is, independently, generic or one of the
        special vectors (exactly cancelling, constant, non-positive, zero, single entry); matrix-level rare states: an
        all-zero row (a pixel that maps nowhere), a column that is minus / equal to another one, every ROW cancelling
        exactly, a one-hot 0/1 matrix (what a mapper produces; also passed as int / bool)"""
-    mode = rng.choice(["cols"] * 7 + ["negcol", "dupcol", "rowcancel", "rowcancel", "onehot", "onehot"])
+    mode = mode or rng.choice(["cols"] * 7 + ["negcol", "dupcol", "rowcancel", "rowcancel", "onehot", "onehot"])
     if mode == "onehot" and P >= 1 and n >= 1:
         return [[Fraction(int(j == rng.randrange(P))) for j in range(P)] if rng.random() < 0.85 else [Fraction(0)] * P for _ in range(n)]
     if mode == "rowcancel" and P >= 2 and n >= 1:
@@ -181,7 +183,7 @@ def rmat(rng, n, P, mag=True, q=None):
         forced = QUOTA.want(rng, q, n if P >= 1 else 0) if q is not None else None
         jf = rng.randrange(P) if forced else None
         cols = [rvals(rng, n, sparse=True, e=rexp(rng, mag), special=forced if j == jf else None) for j in range(P)]
-        if mode in ("negcol", "dupcol") and P >= 2 and not forced:
+        if mode in ("negcol", "dupcol") and P >= 2 and (not forced or q is None):
             a, b = rng.sample(range(P), 2); cols[b] = [(-v if mode == "negcol" else v) for v in cols[a]]
     M = [[cols[j][i] for j in range(P)] for i in range(n)]
     if n >= 2 and rng.random() < 0.12: M[rng.randrange(n)] = [Fraction(0)] * P
@@ -226,6 +228,8 @@ def fits(vals, kind):
 def pick_dt(rng, vals, kinds=("i8", "f4"), p=0.4):
     if "b1" in kinds and fits(vals, "b1") and any(True for _ in flat(vals)):       # a 0/1 matrix: mostly passed as bool / int
         return rng.choice(["b1", "b1", "i8", "f4", "f8"])
+    if "i8" in kinds and fits(vals, "i8") and any(abs(v) > 2 ** 26 and not fits([v], "f4") for v in flat(vals)) and rng.random() < 0.7:
+        return "i8"                                                                 # wide integers: mostly passed as int64
     k = rng.choice(list(kinds)) if rng.random() < p else "f8"
     return k if fits(vals, k) else "f8"
 NOISE_EXPS = [0, 0, 0, -20, 20, -50, 50]
@@ -418,8 +422,11 @@ def gen_class(tier, rng):
             nobj = rng.choice([1, 1, 2, 3])
             objs = []
             for _ in range(nobj):
-                Pi = rng.choice([1, 1, 2, 3])
-                Mo = Sm(rmat(rng, npix, Pi, mag=(i % 4 == 0), q="c.inv.M"))
+                Pi = 2 if (i // 2) % 4 == 1 else rng.choice([1, 1, 2, 3])
+                # one inversion in four has an object whose columns cancel one another exactly (col_b = -col_a: the
+                # transformed columns, the stacked matrix and D cancel too, F does not)
+                Mo = Sm(rmat(rng, npix, Pi, mag=(i % 4 == 0), mode="negcol")) if Pi >= 2 and (i // 2) % 4 == 1 else \
+                     Sm(rmat(rng, npix, Pi, mag=(i % 4 == 0), q="c.inv.M"))
                 objs.append({"P": Pi, "M": Mo, "reg": rng.random() < 0.5, "dt": pick_dt(rng, Mo, ("i8", "f4", "b1"), 0.3),
                              "cls": rng.choice(["obj", "obj", "funclist"])})
             value = rng.choice(["default", "default", "1/8", "1", "2", "0"])
